@@ -4,15 +4,26 @@
 (*   what      "find" | "clean"                                              *)
 (*   imported  ids of the tree's .py files in the order their top-level code *)
 (*             ran (each file logs its own import), __init__.py excluded     *)
+(*   listed    one id per test --list-tests printed, in that order: the file *)
+(*             of the module the test belongs to (a module is imported at    *)
+(*             most once per name, so a module that is discovered twice      *)
+(*             shows here: its tests are collected, and would run, twice)    *)
 (*   deleted / changed   file-system diff (ids gone / ids whose size or hash *)
 (*             changed or paths that appeared)                               *)
 EXTENDS Naturals, Sequences, FiniteSets, TLC, Json, IOUtils, Discovery
 
 Recs == JsonDeserialize(IOEnv.TRACE_FILE)
-VARIABLE k
-Init == k \in 1..Len(Recs)
-Next == UNCHANGED k
-Spec == Init /\ [][Next]_k
+(* g = 0: start; then one of G groups is picked, then one record of that     *)
+(* group (two levels, so that TLC's workers share the records: the verdict  *)
+(* of a record is evaluated by the worker that generates its state)         *)
+VARIABLES g, k
+G == 64
+Init == g = 0 /\ k = 0
+Next == \/ g = 0 /\ g' \in 1..G /\ k' = 0
+        \/ g > 0 /\ k = 0 /\ g' = g /\ k' \in {i \in 1..Len(Recs) : i % G = g - 1}
+Spec == Init /\ [][Next]_<<g, k>>
+
+Twice(s) == CHOOSE x \in ToSet(s) : \E a, b \in 1..Len(s) : a # b /\ s[a] = x /\ s[b] = x
 
 FindVerdict(r) ==
   LET T == r.T
@@ -21,16 +32,19 @@ FindVerdict(r) ==
       may == ToSet(imp)
       must == ToSet(SelectSeq(found, LAMBDA f : Accepted(T, f)))
       obs == r.imported
+      lst == r.listed
       fs == ToSet(found)
   IN IF r.crashed # "" THEN <<"C14:run-failed", r.crashed>>
-     ELSE IF ~NoDup(obs) THEN <<"C14:twice", "">>
+     ELSE IF ~NoDup(obs) THEN <<"C14:twice", Twice(obs)>>
+     ELSE IF ~NoDup(lst) THEN <<"C14:twice", Twice(lst)>>
      ELSE IF \E x \in ToSet(obs) : x \notin may /\ x \in fs THEN <<"C14:filtered-imported", "">>
-     ELSE IF \E x \in ToSet(obs) : x \notin may
-          THEN <<"C14:extra", CHOOSE x \in ToSet(obs) : x \notin may>>
-     ELSE IF \E x \in must : x \notin ToSet(obs)
-          THEN <<"C14:missing", CHOOSE x \in must : x \notin ToSet(obs)>>
+     ELSE IF \E x \in ToSet(obs) \cup ToSet(lst) : x \notin may
+          THEN <<"C14:extra", CHOOSE x \in ToSet(obs) \cup ToSet(lst) : x \notin may>>
+     ELSE IF \E x \in must : x \notin ToSet(obs) \/ x \notin ToSet(lst)
+          THEN <<"C14:missing", CHOOSE x \in must : x \notin ToSet(obs) \/ x \notin ToSet(lst)>>
      ELSE IF obs # SelectSeq(found, LAMBDA f : f \in ToSet(obs)) THEN <<"C14:order", "">>
-     ELSE IF obs # imp THEN <<"DRIFT", "">>
+     ELSE IF lst # SelectSeq(found, LAMBDA f : f \in ToSet(lst)) THEN <<"C14:order", "listed">>
+     ELSE IF obs # imp \/ lst # imp THEN <<"DRIFT", "">>
      ELSE <<"", "">>
 
 CleanVerdict(r) ==
@@ -47,5 +61,5 @@ CleanVerdict(r) ==
      ELSE <<"", "">>
 
 Verdict(r) == IF r.what = "find" THEN FindVerdict(r) ELSE CleanVerdict(r)
-Report == LET v == Verdict(Recs[k]) IN PrintT(<<"DISC", Recs[k].id, v[1], v[2]>>)
+Report == k > 0 => LET v == Verdict(Recs[k]) IN PrintT(<<"DISC", Recs[k].id, v[1], v[2]>>)
 =============================================================================
